@@ -1,4 +1,5 @@
 import SynKitProofs.Props.C16
+import SynKitProofs.ViewsRawLemmas
 #print axioms SynKit.Views.digits_roundtrip
 #print axioms SynKit.Views.side_roundtrip
 #print axioms SynKit.Views.side_roundtrip_perm
@@ -12,3 +13,6 @@ import SynKitProofs.Props.C16
 #print axioms SynKit.Views.species_roundtrip
 #print axioms SynKit.Views.species_roundtrip_mol
 #print axioms SynKit.Views.C16.full
+#print axioms SynKit.Views.ofBipartiteRaw_toRaw
+#print axioms SynKit.Views.ofSpeciesGraphRaw_toRaw
+#print axioms SynKit.Views.parseItemsFrom_plain
